@@ -19,7 +19,7 @@ class C17(L1Prop):
                    "flags/variables, and with an oracle written from the property text (addresses served, allow-list enforced, "
                    "snapshot targets applied, history identical after restart).")
     rule = ("configurations of the real executable: 1-3 listen addresses (one comma-delimited flag / repeated flags / "
-            "LISTEN), data directory (flag / DATA_DIR / flag over env; ASCII names and names that are not valid UTF-8), allow-list (none / one / many; flag, repeated flags, "
+            "LISTEN), 1-3 addresses that differ in the host only (one port), data directory (flag / DATA_DIR / flag over env; absolute or relative to the working directory; ASCII names, names with URI/query characters and names that are not valid UTF-8), allow-list (none / one / many; flag, repeated flags, "
             "CLIENT_ID), snapshot-versions and snapshot-days in {1,2,3,default,large} by flag or environment variable (and flag "
             "over env); the process is started, a history is sent round-robin to EVERY address over raw TCP (chunked bodies "
             "included), killed with SIGKILL, restarted on the same directory and the history re-read; non-trivial = "
@@ -31,13 +31,17 @@ class C17(L1Prop):
             r = random.Random(rng.getrandbits(32))
             nl = r.choice([1, 2, 3])
             lsrc = r.choice(["flag", "flags", "env"])
-            dsrc = r.choice(["flag", "env", "both", "flag8", "env8"]) if k % 3 else ["flag8", "env8", "both"][(k // 3) % 3]
+            # the directory: absolute / RELATIVE to the directory the server is started in (r) / a name with
+            # characters that mean something in a URI or a query (s) / a name that is not valid UTF-8 (8)
+            dsrc = ["flagr", "flags", "envr", "envs", "flag", "env", "both", "flag8"][(k - k // 3 - 1) % 8] if k % 3 else ["flag8", "env8", "both"][(k // 3) % 3]
+            # every fourth configuration with several addresses: they differ in the HOST only (one port)
+            same_port = nl > 1 and (k % 4 == 1 or r.random() < 0.2)
             allow = r.choice(["none", "none", "flag:1", "flags:1,2", "env:2", "env:1,2,3", "flag:1,2"])
             vk = r.choice([1, 2, 3, 5])
             vsrc = r.choice(["default", f"flag:{vk}", f"env:{vk}", f"both:{vk}/{vk + 7}"])
             dk = r.choice([1, 2, 3])
             ysrc = r.choice(["default", "default", f"flag:{dk}", f"env:{dk}"])
-            boot = f"boot listen={lsrc}:{nl} dir={dsrc} allow={allow} versions={vsrc} days={ysrc}"
+            boot = f"boot listen={lsrc}:{nl}{'h' if same_port else ''} dir={dsrc} allow={allow} versions={vsrc} days={ysrc}"
             ops = [boot]
             # every third configuration: another connection to the database stays open throughout (a
             # backup tool, a second worker), so that nothing is checkpointed when requests finish and
